@@ -124,6 +124,8 @@ func fmtSSAColor(c ssaColor, mode int) string {
 		return fmt.Sprintf("&H%06X", v)
 	case 4:
 		return strconv.FormatInt(int64(int32(v)), 10)
+	case 6:
+		return fmt.Sprintf("&H%X", v)
 	}
 	return strconv.FormatUint(uint64(v), 10)
 }
@@ -147,6 +149,13 @@ func (st ssaStyleM) cell(col string, r ssaRendering) string {
 		return "0"
 	}
 	if v, ok := st.Colors[col]; ok {
+		if r.ColorMode == 5 {
+			// both radices in one document: decimal for the primary and outline colours, hexadecimal for the others
+			if col == "PrimaryColour" || col == "OutlineColour" {
+				return fmtSSAColor(v, 0)
+			}
+			return fmtSSAColor(v, 6)
+		}
 		return fmtSSAColor(v, r.ColorMode)
 	}
 	if v, ok := st.Floats[col]; ok {
@@ -692,6 +701,13 @@ func genSSAStyle(t *rapid.T, name string, cols map[string]bool) ssaStyleM {
 			st.Colors[c] = ssaColor{A: uint8(v >> 24), B: uint8(v >> 16), G: uint8(v >> 8), R: uint8(v)}
 		}
 	}
+	if cols["PrimaryColour"] && cols["SecondaryColour"] && rapid.IntRange(0, 2).Draw(t, "samedigits") == 0 {
+		// two colours whose digits are the same, one read as decimal and one as hexadecimal when the document mixes radices
+		a := rapid.SampledFrom([]uint32{123456, 255, 654321, 10, 99999999, 16777215}).Draw(t, "digits")
+		h, _ := strconv.ParseUint(strconv.FormatUint(uint64(a), 10), 16, 32)
+		st.Colors["PrimaryColour"] = ssaColor{A: uint8(a >> 24), B: uint8(a >> 16), G: uint8(a >> 8), R: uint8(a)}
+		st.Colors["SecondaryColour"] = ssaColor{A: uint8(h >> 24), B: uint8(h >> 16), G: uint8(h >> 8), R: uint8(h)}
+	}
 	for _, c := range ssaFloatCols {
 		if cols[c] {
 			st.Floats[c] = rapid.SampledFrom([]int64{0, 1000, 20000, 500, 125, 100000, 2500, 12345, -1500}).Draw(t, c)
@@ -822,7 +838,7 @@ func genSSARendering(t *rapid.T, cols map[string]bool) ssaRendering {
 		EventsHeader:  rapid.SampledFrom([]string{"[Events]", "[events]", "[EVENTS]"}).Draw(t, "evhdr"),
 		FormatSpace:   rapid.Bool().Draw(t, "fmtspace"),
 		ShortHour:     rapid.Bool().Draw(t, "shorthour"),
-		ColorMode:     rapid.IntRange(0, 4).Draw(t, "colormode"),
+		ColorMode:     rapid.IntRange(0, 5).Draw(t, "colormode"),
 		Tertiary:      rapid.Bool().Draw(t, "tertiary"),
 		BreakUpper:    rapid.Bool().Draw(t, "breakupper"),
 		BreakMix:      rapid.IntRange(0, 3).Draw(t, "breakmix") == 0,
